@@ -602,7 +602,7 @@ func TestVerif_C12(t *testing.T) {
 				return
 			}
 			if what == "cursor" {
-				tok, err := f.packCursorToken(own.CallID, vfC12State(method), Anonymous())
+				tok, err := f.packCursorTokenFor(own.CallID, method, vfC12State(method), Anonymous())
 				if err != nil {
 					venum.EngineError("C12 harness: foreign cursor: %v", err)
 					return
@@ -629,6 +629,11 @@ func TestVerif_C12(t *testing.T) {
 		}
 		x.Note("server key len %d, mint key len %d (%s)", len(serverKey), len(mintKey), rel)
 		cls := "C12:key:" + what + ":" + rel
+		if sameKey && r.pan == nil && len(r.events) == 0 {
+			// control: a token sealed under the same key bytes must resume, or the
+			// refusals of the other keys would say nothing about keys
+			venum.EngineError("C12 harness: same-key control (%s) refused: status=%d %s:%s", what, r.status, r.errType, r.errMsg)
+		}
 		vfC12Judge(x, cls, r, !sameKey, true)
 	})
 
